@@ -207,3 +207,45 @@ def apply(d):
             for a in t.get("args", []) or []:
                 fix_operand(a)
     return m
+
+
+# ---------------------------------------------------------------------------------------------
+# module-path canonicalisation
+
+def canon_paths(text):
+    """Moving a type into a sub-module (`impls::index::Stride` -> `impls::index::stride::Stride`,
+    re-exported under its old public path) is behaviour-preserving, but rustc's definition paths --
+    which the rules, the evidence and the known-finding keys name -- follow the private module.
+    The pinned tree's type paths are listed in pinned_adts.json; a pinned path that is gone while
+    exactly one type of the same name exists elsewhere in the crate is taken to be that type, and
+    its new path is rewritten to the pinned one throughout the facts.  Returns (facts, mapping)."""
+    import json, os, re
+    here = os.path.dirname(os.path.abspath(__file__))
+    d = json.loads(text)
+    try:
+        pinned = json.load(open(os.path.join(here, "pinned_adts.json")))
+    except (OSError, ValueError):
+        return d, {}
+    present = [a["path"] for a in d["adts"]]
+    present_set = set(present)
+    pinned_set = set(pinned)
+    by_name = {}
+    for q in present:
+        if "<" in q or "_::" in q or "::tests::" in q:
+            continue
+        by_name.setdefault(q.split("::")[-1], []).append(q)
+    mapping = {}
+    for P in pinned:
+        if P in present_set:
+            continue
+        cands = [q for q in by_name.get(P.split("::")[-1], []) if q not in pinned_set]
+        if len(cands) == 1:
+            mapping[cands[0]] = P
+    if not mapping:
+        return d, {}
+    # module prefixes too (inherent impl blocks and free functions of a moved module keep working
+    # through callee tags, but labels and keys should read like the pinned ones)
+    for q in sorted(mapping, key=len, reverse=True):
+        pat = re.compile(re.escape(q) + r"(?![A-Za-z0-9_])")
+        text = pat.sub(lambda m_, rep=mapping[q]: rep, text)
+    return json.loads(text), mapping
